@@ -508,7 +508,7 @@ def cuts_from_mask(mask: int, length: int):
 
 
 class Outcome:
-    __slots__ = ("streams", "dgrams", "closed", "raised", "settings", "resumes", "blocked_sids", "events", "fin_alone_sids", "closed_by", "probe")
+    __slots__ = ("streams", "dgrams", "closed", "raised", "settings", "resumes", "blocked_sids", "events", "fin_alone_sids", "closed_by", "probe", "closed_at")
 
     def __init__(self):
         self.streams = {}  # sid -> {"items": [[kind, id, payload]], "ended": int, "after_end": bool}
@@ -521,6 +521,7 @@ class Outcome:
         self.events = 0
         self.fin_alone_sids = set()
         self.closed_by = None  # (key whose delivery triggered close(), streams blocked just before)
+        self.closed_at = None  # (phase index, step index) of the step that called close()
         self.probe = None  # diagnostic re-run only: last frame-handler call of the step that closed
 
     def norm(self):
@@ -637,10 +638,10 @@ def deliver(env: Env, case: Case, schedule, on_exc=None, probe=False, partial=Fa
                 return orig(frame_type=frame_type, frame_data=frame_data, stream=stream, stream_ended=stream_ended)
 
             h3._handle_request_or_push_frame = spy
-    for ph, steps in zip(case.phases, schedule):
+    for phi, (ph, steps) in enumerate(zip(case.phases, schedule)):
         pos = {}
         dgi = 0
-        for k, n, f in steps:
+        for sti, (k, n, f) in enumerate(steps):
             if k == "dg":
                 ev = DFR(data=ph.dgs[dgi])
                 dgi += 1
@@ -663,6 +664,7 @@ def deliver(env: Env, case: Case, schedule, on_exc=None, probe=False, partial=Fa
                 absorb(out, e)
             if stub.closed is not None and out.closed_by is None:
                 out.closed_by = (k, sorted(blocked))
+                out.closed_at = (phi, sti)
                 out.probe = last["v"] + (delivered.get(last["v"][0], 0),) if "v" in last else None
             nb = blocked_now(h3)
             if nb or blocked:
@@ -685,6 +687,39 @@ def deliver(env: Env, case: Case, schedule, on_exc=None, probe=False, partial=Fa
     for sid in list(out.streams):
         out.streams[sid] = stream_norm(out.streams[sid])
     return out
+
+
+def prefix_case(case: Case, schedule, upto):
+    """The case made of exactly the bytes (and FINs, datagrams) that `schedule` delivers up to and including
+    step `upto` = (phase index, step index): per-stream prefixes, in the original sender order."""
+    phi, sti = upto
+    pc = Case(case.recv_client, case.wt)
+    pc.faults = case.faults
+    pc.label = case.label + "|prefix"
+    pc.phases = []
+    for i, (ph, steps) in enumerate(zip(case.phases, schedule)):
+        if i > phi:
+            break
+        got = {}
+        fins = {}
+        ndg = 0
+        for j, (k, n, f) in enumerate(steps):
+            if i == phi and j > sti:
+                break
+            if k == "dg":
+                ndg += 1
+            else:
+                got[k] = got.get(k, 0) + n
+                fins[k] = fins.get(k, False) or f
+        np_ = Phase()
+        for k in ph.order:
+            if k == "dg":
+                for d in ph.dgs[:ndg]:
+                    np_.add_dgram(d)
+            elif k in got:
+                np_.add_stream(k, bytes(ph.data[k][: got[k]]), fins[k])
+        pc.phases.append(np_)
+    return pc
 
 
 # ------------------------------------------------------------------ difference classifier
